@@ -256,33 +256,36 @@ Definition cfg_opt_getval (o : optrec) (index : nat) : M (optrec * outcome addr)
            match v with Some cv => ret (o, Done cv) | None => crash end
        end.
 
-(* the part of cfg_opt_setnstr after the slot lookup; val = cv *)
-Definition set_val_string (o1 : optrec) (cv : addr) (value : option str)
+(* the last three statements of cfg_opt_setnstr; val = cv, newstr = the copy (or NULL) *)
+Definition set_val_string (o1 : optrec) (cv : addr) (newstr : ptr)
   : M (optrec * outcome unit) :=
   oldstr <- load_val cv ;;                           (* oldstr = val->string; *)
-  match value with
-  | Some s =>
-      newstr <- strdup s ;;                          (* newstr = strdup(value); *)
-      match newstr with
-      | None => ret (o1, Failed)                     (* if (!newstr) return CFG_FAIL; *)
-      | Some _ =>
-          store cv (BVal newstr) ;;;                 (* val->string = newstr; *)
-          free_ptr oldstr ;;;                        (* if (oldstr) free(oldstr); *)
-          ret (o1, Done tt)
-      end
-  | None =>
-      store cv (BVal None) ;;;                       (* val->string = NULL; *)
-      free_ptr oldstr ;;;
-      ret (o1, Done tt)
-  end.
+  store cv (BVal newstr) ;;;                         (* val->string = newstr; *)
+  free_ptr oldstr ;;;                                (* free(oldstr); *)
+  ret (o1, Done tt).                                 (* return CFG_SUCCESS; *)
 
-Definition cfg_opt_setnstr (o : optrec) (value : option str) (index : nat)
+(* cfg_opt_setnstr after the copy has been made: newstr = the copy, or NULL when value == NULL *)
+Definition setnstr_after_copy (o : optrec) (newstr : ptr) (index : nat)
   : M (optrec * outcome unit) :=
   r <- cfg_opt_getval o index ;;                     (* val = cfg_opt_getval(opt, index); *)
   let (o1, v) := r in
   match v with
-  | Failed => ret (o1, Failed)                       (* if (!val) return CFG_FAIL; *)
-  | Done cv => set_val_string o1 cv value
+  | Failed => free_ptr newstr ;;; ret (o1, Failed)   (* if (!val) { free(newstr); return CFG_FAIL; } *)
+  | Done cv => set_val_string o1 cv newstr
+  end.
+
+(* the copy is made FIRST (value may point into the option's current value,
+   which cfg_opt_getval may release); request order: strdup, [realloc, calloc] *)
+Definition cfg_opt_setnstr (o : optrec) (value : option str) (index : nat)
+  : M (optrec * outcome unit) :=
+  match value with
+  | Some s =>                                        (* if (value) {              *)
+      newstr <- strdup s ;;                          (*   newstr = strdup(value); *)
+      match newstr with
+      | None => ret (o, Failed)                      (*   if (!newstr) return CFG_FAIL; } *)
+      | Some _ => setnstr_after_copy o newstr index
+      end
+  | None => setnstr_after_copy o None index          (* newstr = NULL *)
   end.
 
 (* ====================================================================== *)
@@ -667,6 +670,7 @@ Definition hits (k n : nat) : Prop := 1 <= k <= n.
 
 (* ---- number of allocation requests of a fault-free call ---------------- *)
 Definition nreq_value (value : option str) : nat := if value then 1 else 0.
+(* cfg_opt_setnstr: [strdup if value] FIRST, then [realloc, calloc if index >= nvalues] *)
 Definition nreq_setnstr (nv index : nat) (value : option str) : nat :=
   (if index <? nv then 0 else 2) + nreq_value value.
 Definition nreq_src (src : option gstr) : nat := if src then 1 else 0.
